@@ -234,6 +234,28 @@ impl Part for C10 {
                 let k = keys(Kem::X25519, 10_100, cfg.seed);
                 let info = b"neg".to_vec();
                 let m = mode_spec(*mode, &k, &bytes(Fill::Mix, 32, 11, cfg.seed), &bytes(Fill::Mix, 22, 12, cfg.seed));
+                                // the receiver's OWN public key as encapsulated key (an attacker can reflect it): not of small order, so it is
+                // not rejected and gives R1's context
+                if *from == 0 {
+                    match (r1_setup_r(*suite, &m, &k.pk_r, &k.sk_r, &info), ops.setup_receiver(&m, &k.sk_r, &k.pk_r, &info)) {
+                        (Some(rc), Obs::Ok(r)) => {
+                            expect_bytes(&mut out, "receiver whose enc is its own public key: export", &r.export(b"x", 32), &rc.export(b"x", 32).unwrap());
+                        }
+                        (Some(_), o) => out.fail(format!("setup_receiver(enc = the receiver's own public key): {} - a key that is not of small order must not be rejected", o.map(|_| ()).class())),
+                        (None, _) => out.fail_machinery("R1 rejects enc = pkR"),
+                    }
+                    let mut rng = ScriptRng::new(&k.ikm_e);
+                    let own = ModeSpec { pk_s: k.pk_r.clone(), sk_s: k.sk_r.clone(), ..m.clone() };
+                    if mode.has_auth() {
+                        match (r1_setup_s(*suite, &own, &k.pk_r, &info, &k.ikm_e), ops.setup_sender(&own, &k.pk_r, &info, &mut rng)) {
+                            (Some((e, _)), Obs::Ok((enc, _))) => {
+                                out.check("sender sealing to itself: enc equals R1's", enc == e);
+                            }
+                            (Some(_), o) => out.fail(format!("setup_sender(identity = recipient): {}", o.map(|_| ()).class())),
+                            (None, _) => out.fail_machinery("R1 rejects a self-addressed sender"),
+                        }
+                    }
+                }
                 for i in *from..*from + *count {
                     let u = negative_u(i);
                     // as recipient key at the sender
